@@ -177,6 +177,22 @@ func runC18(c *mon.Ctx) {
 						}
 						c.Count("quotients_via_coefficient_form", 1)
 					}
+					// the returned vector is the caller's: overwrite a copy-independent part of it and ask again later
+					if k%5 == 0 {
+						q2 := pw.DivideOnDomain(uint8(k), lf)
+						for i := range q {
+							q[i].SetUint64(0xBAD)
+						}
+						q3 := pw.DivideOnDomain(uint8(k), lf)
+						for i := range q3 {
+							if q3[i] != q2[i] {
+								c.Fail("result-aliases-internal-state/DivideOnDomain", fmt.Sprintf("DivideOnDomain(k=%d) returns a different vector after the caller modified an earlier result", k), nil)
+								break
+							}
+						}
+						q = q3
+						c.Count("results_scribbled_and_recomputed", 1)
+					}
 					for i := range q {
 						if FrToBig(&q[i]).Cmp(want[i]) != 0 {
 							sig := "quotient/off-index"
@@ -234,6 +250,18 @@ func runC18(c *mon.Ctx) {
 				}
 			}
 			c.Count("lagrange_vectors_checked", 1)
+			// history: the caller modifies the returned coefficients in place, then asks for the same point again
+			for i := range b {
+				b[i].SetUint64(uint64(i) + 3)
+			}
+			b = pw.ComputeBarycentricCoefficients(FrFromBig(z))
+			for i := range b {
+				if i >= len(want) || FrToBig(&b[i]).Cmp(want[i]) != 0 {
+					c.Fail("result-aliases-internal-state/ComputeBarycentricCoefficients", fmt.Sprintf("ComputeBarycentricCoefficients(%s) is wrong after the caller modified the vector returned by an earlier call", name), nil)
+					break
+				}
+			}
+			c.Count("results_scribbled_and_recomputed", 1)
 			pc := name
 			if len(name) > 6 && name[:6] == "random" {
 				pc = "random"
